@@ -43,14 +43,18 @@ PROPERTIES = {
                        "integer points of small polyhedra; sampled points for wide bounds; unsafe models as reachability canaries.",
     },
     "C03": {
-        "harness_modules": ["contracts.assume"],
-        "harness_filter": only("AtLeast.assume", "variable.assume", "variable.evaluate", "lemma.ival_wf", "lemma.total_const"),
+        "harness_modules": ["contracts.assume", "contracts.c03"],
+        "harness_filter": only("AtLeast.assume", "variable.assume", "variable.evaluate", "lemma.ival_wf", "lemma.total_const",
+                               "AtLeast.evaluate"),
         "rt": ["rt.logic:c03_evaluate_glue", "rt.logic:history_sequences"],
         "level": "other",
         "assumptions": S_ALL,
         "explanation": "deductive: assume/post.bounds (the bounds assume() returns are ival, for every child count and value form), "
                        "variable.assume/evaluate, lemma.total_const (total interpretation => ival == truth function with the "
-                       "override clause). bounded stand-in: evaluate()/evaluate_propositions() glue (dict(zip(flatten...)))",
+                       "override clause); evaluate()/evaluate_propositions() (real source) against the contracts of assume and "
+                       "flatten: evaluate(d) == top entry == ival(self, d). ASSUMED: the flatten contract (the list contains the "
+                       "node itself; in the assumed model every node with that id has its bounds). bounded stand-ins: the "
+                       "same glue end to end incl. overrides of sub-proposition ids, and repeated queries on one object",
     },
     "C04": {
         "harness_modules": ["contracts.c04", "contracts.c05"],
